@@ -281,6 +281,25 @@ extern "C" void h_dec_mi()
     }
 }
 
+// length validation of the fixed-size attributes: one attribute of type cfg0 with a SYMBOLIC length field, exactly as many payload
+// bytes as the type requires; no key.  decode accepts iff the length field is the required one.
+extern "C" void h_dec_len()
+{
+    keepEncode();
+    static const struct { unsigned type, req; } tab[] = { { 0x0024, 4 }, { 0x802a, 8 }, { 0x8029, 8 }, { 0x0025, 0 }, { 0x000c, 4 }, { 0x000d, 4 }, { 0x0019, 4 }, { 0x0022, 8 }, { 0x0003, 4 } };
+    const unsigned type = tab[vp_cfg0()].type, req = tab[vp_cfg0()].req, n = 24 + req;
+    QByteArray b = freshBytes(n, n);
+    put16(b, 2, n - 20); put16(b, 20, type);
+    QXmppStunMessage r;
+    const bool ok = r.decode(b, QByteArray(), nullptr);
+    vp_assert(ok == (be16(b, 22) == req), "C14 a fixed-size attribute is accepted iff its length field is the size the attribute has");
+    if (ok && type == 0x0024) vp_assert(r.priority() == be32(b, 24), "C14 PRIORITY value");
+    if (ok && type == 0x802a) vp_assert(sameBytesAt(b, 24, r.iceControlling), "C14 ICE-CONTROLLING value");
+    if (ok && type == 0x000d) vp_assert(r.lifetime() == be32(b, 24), "C14 LIFETIME value");
+    if (ok && type == 0x000c) vp_assert(r.channelNumber() == be16(b, 24), "C14 CHANNEL-NUMBER value");
+    if (ok && type == 0x0025) vp_assert(r.useCandidate, "C14 USE-CANDIDATE flag");
+}
+
 // ---------------------------------------------------------------------------------------------------------------------------
 // (5) safety on arbitrary bytes, and C15 (i) decode-implies-authenticated.
 // cfg0 = buffer size N (header length field is the valid value N-20: everything else arbitrary), cfg1 = key length bound.
